@@ -320,15 +320,48 @@ func buildQueries(prelude string, fv *FV, o *Obligation, depths []int) []string 
 		b.WriteByte('\n')
 		b.WriteString(sx("assert", not(goal)))
 		b.WriteByte('\n')
-		return b.String()
+		return gcDecls(b.String())
 	}
 	var out []string
+	// quantifier-free variant: the code semantics and the ground instances spelled out by the
+	// generator, every quantified line dropped (also the negated goal when it is quantified: its
+	// instances are among the extras). A subset of consequences of the full query, so "unsat" is a
+	// proof; being quantifier free it is decided in a stable time, whatever the solver's heuristics.
+	ground := func(ls []string) []string {
+		var g []string
+		for _, l := range ls {
+			if strings.Contains(l, "(forall ") || strings.Contains(l, "(exists ") {
+				continue
+			}
+			g = append(g, l)
+		}
+		return g
+	}
+	assembleGround := func(ls []string) string {
+		var b strings.Builder
+		b.WriteString(prelude)
+		for _, l := range ground(ls) {
+			b.WriteString(l)
+			b.WriteByte('\n')
+		}
+		b.WriteString(sx("assert", o.Guard))
+		b.WriteByte('\n')
+		if !strings.Contains(goal, "(forall ") && !strings.Contains(goal, "(exists ") {
+			b.WriteString(sx("assert", not(goal)))
+			b.WriteByte('\n')
+		}
+		return gcDecls(b.String())
+	}
 	if o.Expect == "unsat" && len(use) > 0 {
 		d2, e2, g2 := augment(usingLines, o.Guard, o.Goal, fv.eng.intFuncs)
 		save := goal
 		goal = g2
-		out = append(out, assemble(append(append(append([]string{}, d2...), usingLines...), e2...)))
+		ls := append(append(append([]string{}, d2...), usingLines...), e2...)
+		out = append(out, "; kind=ground\n"+assembleGround(ls))
+		out = append(out, "; kind=using\n"+assemble(ls))
 		goal = save
+	} else if o.Expect == "unsat" && len(extra) > 0 {
+		out = append(out, "; kind=ground\n"+assembleGround(allOnPath))
 	}
 	if o.Expect == "unsat" {
 		for _, d := range depths {
@@ -353,10 +386,15 @@ func solveAll(p *Portfolio, jobs []*job, workers int) {
 				done := false
 				for pi, pq := range j.pruned {
 					ms := p.prunedMs
-					if pi == 0 && len(j.o.Using) > 0 {
+					isUsing := strings.HasPrefix(pq, "; kind=using")
+					if isUsing {
 						ms = p.usingMs // the hypothesis selection given in the contract gets a generous budget
 					}
-					pr := p.solvePrunedT(pq, ms, pi == 0 && len(j.o.Using) > 0)
+					if strings.HasPrefix(pq, "; kind=ground") {
+						ms = 2 * p.prunedMs
+					}
+					_ = pi
+					pr := p.solvePrunedT(pq, ms, isUsing)
 					tried = append(tried, fmt.Sprintf("pruned:%s:%s:%.2fs", pr.Solver, pr.Status, pr.Seconds))
 					if pr.Status == "unsat" {
 						pr.Tried = tried
@@ -423,10 +461,15 @@ func solveAll(p *Portfolio, jobs []*job, workers int) {
 					done := false
 					for pi, pq := range j.pruned {
 						ms := p.prunedMs
-						if pi == 0 && len(j.o.Using) > 0 {
+						isUsing := strings.HasPrefix(pq, "; kind=using")
+						if isUsing {
 							ms = p.usingMs
 						}
-						pr := p.solvePrunedT(pq, ms, pi == 0 && len(j.o.Using) > 0)
+						if strings.HasPrefix(pq, "; kind=ground") {
+							ms = 2 * p.prunedMs
+						}
+						_ = pi
+						pr := p.solvePrunedT(pq, ms, isUsing)
 						tried = append(tried, fmt.Sprintf("retry-pruned:%s:%s:%.2fs", pr.Solver, pr.Status, pr.Seconds))
 						if pr.Status == "unsat" {
 							pr.Tried = append(first.Tried, tried...)
